@@ -191,8 +191,6 @@ Proof.
   unfold den_body. rewrite filter_flat_map. apply SameSet_refl.
 Qed.
 
-Definition kids_wf (t : tree) : bool :=
-  match kids t with None => true | Some l => forallb wf_kid l end.
 
 Lemma wf_kid_inv k :
   wf_kid k = true -> vis k = None /\ attrs k = None /\ path_is_empty k = false /\ kids_wf k = true.
@@ -561,8 +559,6 @@ Qed.
 
 (* ------------------------------------------------------------------ *)
 (* shape invariants *)
-Definition shape (t : tree) : bool := no_empty_kid t && alias_last t.
-Definition good (t : tree) : bool := negb (path_is_empty t) && shape t.
 
 Lemma forallb_and {A} (f g : A -> bool) l :
   forallb (fun x => f x && g x) l = forallb f l && forallb g l.
@@ -1181,7 +1177,6 @@ End Merge.
 
 (* ------------------------------------------------------------------ *)
 (* leaves of lists of trees *)
-Definition cls (t : tree) : N * option N := (vnorm (vis t), attrs t).
 Definition states_leaves (c : N * option N) (sts : list (list sseg)) : list leaf :=
   map (fun p => (fst c, snd c, p)) (map (@rev sseg) (filter valid_state sts)).
 
@@ -1724,7 +1719,6 @@ Proof.
 Qed.
 
 (* a tree with attributes or a comment is passed through unchanged *)
-Definition passthrough (t : tree) : bool := contains_comment t || is_some (attrs t).
 
 Lemma passthrough_no_share t f m : passthrough t = true -> share_prefix t f m = false.
 Proof.
@@ -1780,3 +1774,275 @@ Proof.
   destruct g; cbn [with_granularity]; try congruence; auto using regroup_passthrough.
 Qed.
 End Final.
+
+(* ------------------------------------------------------------------ *)
+(* Crate never hits an alias clash: share_prefix compares first segments with == *)
+Lemma path_head_cons t x : path_head t = Some x -> exists r, path t = x :: r.
+Proof.
+  destruct t as [[|s p] [l|] v a c]; unfold path_head, path; cbn [pre kids map app klist];
+    intros H; inversion H; eauto.
+Qed.
+
+Lemma share_crate_no_root_clash t u :
+  share_prefix t u SPCrate = true -> root_clash (path t) (path u) = false.
+Proof.
+  intros Hs. destruct (share_prefix_nonempty _ _ _ Hs) as [N1 N2].
+  unfold share_prefix in Hs. rewrite N1, N2 in Hs. cbn [orb] in Hs.
+  destruct (is_some (attrs t) || contains_comment t || negb (same_visibility t u)); [discriminate|].
+  destruct (path_head t) as [x|] eqn:Hx; [|discriminate].
+  destruct (path_head u) as [y|] eqn:Hy; [|discriminate].
+  destruct (path_head_cons _ _ Hx) as [r1 E1]. destruct (path_head_cons _ _ Hy) as [r2 E2].
+  rewrite E1, E2. cbn [root_clash]. rewrite Hs. cbn [negb]. rewrite andb_false_r. reflexivity.
+Qed.
+
+Lemma choice_merge_share m trees u i :
+  inner_choice m trees u = CMerge i ->
+  exists x, nth_error trees i = Some x /\ share_prefix x u m = true.
+Proof.
+  unfold inner_choice.
+  assert (H : forall (g : tree -> nat) j k,
+             last_max 0 None (map (fun t => if share_prefix t u m then Some (g t) else None) trees)
+             = Some (j, k) ->
+             exists x, nth_error trees j = Some x /\ share_prefix x u m = true).
+  { intros g j k H. apply last_max_spec in H. destruct H as [H|[_ H]]; [discriminate|].
+    rewrite Nat.sub_0_r in H. apply nth_error_map' in H. destruct H as [x [H1 H2]].
+    exists x. split; [assumption|]. destruct (share_prefix x u m); [reflexivity|discriminate]. }
+  destruct (Nat.eqb (path_len u) 1 && _).
+  - destruct (first_min None _) as [[|[|n]]|]; discriminate.
+  - destruct m.
+    + destruct (last_max 0 None _) as [[j [|[|k]]]|] eqn:E; try discriminate.
+      intros E'; inversion E'; subst. eapply (H path_len); eauto.
+    + destruct (last_max 0 None _) as [[j [|[|k]]]|] eqn:E; try discriminate.
+      intros E'; inversion E'; subst. eapply (H path_len); eauto.
+    + destruct (last_max 0 None _) as [[j [|k]]|] eqn:E; try discriminate.
+      intros E'; inversion E'; subst.
+      eapply (H (fun t => similarity (path t) (path u))); eauto.
+Qed.
+
+Lemma merge_clash_crate self : forall other,
+  share_prefix self other SPCrate = true -> merge_clash SPCrate self other = false.
+Proof.
+  induction self as [pa v a c|pa l v a c IH] using tree_ind'; intros other Hs;
+    cbn [merge_clash]; pose proof (share_crate_no_root_clash _ _ Hs) as Hr;
+    unfold path in Hr at 1; cbn [pre kids] in Hr; rewrite Hr; cbn [orb].
+  - apply andb_false_r.
+  - match goal with |- context [inner_choice SPCrate l ?u] => set (u0 := u) end.
+    destruct (inner_choice SPCrate l u0) as [|i|] eqn:Ec; try (rewrite !andb_false_r; reflexivity).
+    destruct (choice_merge_share _ _ _ _ Ec) as [x [En Hx]].
+    destruct (apply_at_split (fun t => t) (fun t => merge_clash SPCrate t u0) l i x En)
+      as [l1 [l2 [_ [_ E3]]]].
+    rewrite E3. rewrite Forall_forall in IH.
+    rewrite (IH x (nth_error_In _ _ En) u0 Hx). rewrite !andb_false_r. reflexivity.
+Qed.
+
+Lemma run_clash_crate cmp es : forall res, run_clash cmp SPCrate res es = false.
+Proof.
+  induction es as [|e es IH]; intros res; cbn [run_clash]; [reflexivity|].
+  rewrite IH, orb_false_r. destruct e as [t|f]; cbn [ev_clash]; [reflexivity|].
+  destruct (find_index _ 0 res) as [i|] eqn:Ef; [|reflexivity].
+  apply find_index_spec in Ef. destruct Ef as [_ [r [En Hsh]]]. rewrite Nat.sub_0_r in En.
+  destruct (apply_at_split (fun t => t) (fun t => merge_clash SPCrate t f) res i r En)
+    as [l1 [l2 [_ [_ E3]]]].
+  rewrite E3. apply merge_clash_crate. assumption.
+Qed.
+
+Theorem crate_leaves cmp ts :
+  forallb ast_shape ts = true -> NestedEmptyList (map (normalize cmp) ts) = false ->
+  SameSet (Leaves (with_granularity cmp GCrate (map (normalize cmp) ts))) (Leaves ts).
+Proof.
+  intros Hs Hn. apply granularity_leaves; [assumption|].
+  unfold BadClass. rewrite Hn. unfold alias_clash. apply run_clash_crate.
+Qed.
+
+(* ------------------------------------------------------------------ *)
+(* P3 corollaries in the vocabulary of Props.v *)
+Theorem merge_inner_leaves cmp m trees u :
+  forallb good trees = true -> good u = true ->
+  (forall i x, inner_choice m trees u = CMerge i -> nth_error trees i = Some x ->
+               merge_clash m x u = false) ->
+  forallb good (merge_use_trees_inner cmp m trees u) = true /\
+  forall st, SameSet (flat_map (den st) (merge_use_trees_inner cmp m trees u))
+                     (flat_map (den st) trees ++ den st u).
+Proof.
+  intros Hg Hu Hc. unfold merge_use_trees_inner.
+  apply (inner_ok cmp m _ (fun _ => true)); auto.
+  intros i x Ec En. apply merge_ok; auto.
+  - eapply forallb_In; [eassumption|]. eapply nth_error_In; eassumption.
+  - eapply Hc; eassumption.
+Qed.
+
+Theorem merge_den cmp m self other :
+  good self = true -> good other = true -> merge_clash m self other = false ->
+  good (merge cmp m self other) = true /\
+  forall st, SameSet (den st (merge cmp m self other)) (den st self ++ den st other).
+Proof. apply merge_ok. Qed.
+
+(* ------------------------------------------------------------------ *)
+(* a boolean test refuting SameSet, for the witnesses *)
+Definition leaf_eqb (x y : leaf) : bool :=
+  let '(v1, a1, p1) := x in let '(v2, a2, p2) := y in
+  N.eqb v1 v2 && oN_eqb a1 a2 && list_eqb sseg_eqb p1 p2.
+Definition subset_b (l1 l2 : list leaf) : bool :=
+  forallb (fun x => existsb (leaf_eqb x) l2) l1.
+Definition sameset_b (l1 l2 : list leaf) : bool := subset_b l1 l2 && subset_b l2 l1.
+
+Lemma leaf_eqb_eq x y : leaf_eqb x y = true -> x = y.
+Proof.
+  destruct x as [[v1 a1] p1], y as [[v2 a2] p2]. cbn [leaf_eqb].
+  rewrite !andb_true_iff. intros [[H1 H2] H3].
+  apply N.eqb_eq in H1. apply oN_eqb_eq in H2. apply list_eqb_sseg_eq in H3. subst. reflexivity.
+Qed.
+Lemma subset_b_sound l1 l2 : subset_b l1 l2 = true -> forall x, In x l1 -> In x l2.
+Proof.
+  unfold subset_b. rewrite forallb_forall. intros H x Hx. specialize (H x Hx).
+  apply existsb_exists in H. destruct H as [y [Hy He]]. apply leaf_eqb_eq in He. subst. assumption.
+Qed.
+Lemma oname_eqb_refl a : oname_eqb a a = true.
+Proof. destruct a; cbn [oname_eqb]; auto. apply eqb_text_spec. reflexivity. Qed.
+Lemma sseg_eqb_refl s : sseg_eqb s s = true.
+Proof.
+  destruct s; cbn [sseg_eqb]; auto using oname_eqb_refl.
+  rewrite oname_eqb_refl, andb_true_r. apply eqb_text_spec. reflexivity.
+Qed.
+Lemma leaf_eqb_refl x : leaf_eqb x x = true.
+Proof.
+  destruct x as [[v a] p]. cbn [leaf_eqb]. rewrite N.eqb_refl. cbn [andb].
+  assert (Ha : oN_eqb a a = true) by (destruct a; cbn [oN_eqb]; auto using N.eqb_refl).
+  rewrite Ha. cbn [andb]. induction p as [|s p IH]; cbn [list_eqb]; auto.
+  rewrite sseg_eqb_refl, IH. reflexivity.
+Qed.
+Lemma subset_b_complete l1 l2 : (forall x, In x l1 -> In x l2) -> subset_b l1 l2 = true.
+Proof.
+  intros H. unfold subset_b. apply forallb_forall. intros x Hx.
+  apply existsb_exists. exists x. split; [auto|apply leaf_eqb_refl].
+Qed.
+Lemma sameset_b_false l1 l2 : sameset_b l1 l2 = false -> ~ SameSet l1 l2.
+Proof.
+  intros H Hs. unfold sameset_b in H.
+  rewrite (subset_b_complete l1 l2), (subset_b_complete l2 l1) in H; [discriminate| |];
+    intros x Hx; apply Hs; assumption.
+Qed.
+Lemma sameset_b_true l1 l2 : sameset_b l1 l2 = true -> SameSet l1 l2.
+Proof.
+  unfold sameset_b. rewrite andb_true_iff. intros [H1 H2] x.
+  split; [apply (subset_b_sound _ _ H1)|apply (subset_b_sound _ _ H2)].
+Qed.
+
+(* ------------------------------------------------------------------ *)
+(* witnesses of the refuted classes (Examples.v has them in readable form) *)
+Definition id1 (c : N) : sseg := Ident [c] None.
+Definition top (p : list sseg) (k : option (list tree)) (v : N) (a : option N) : tree :=
+  Node p k (Some v) a false.
+Definition kid (p : list sseg) (k : option (list tree)) : tree := Node p k None None false.
+Definition norm15 := map (normalize cmp15).
+Definition not_preserved (g : granularity) (ts : list tree) : bool :=
+  negb (sameset_b (Leaves (with_granularity cmp15 g (norm15 ts))) (Leaves ts)).
+Lemma not_preserved_sound g ts :
+  not_preserved g ts = true ->
+  ~ SameSet (Leaves (with_granularity cmp15 g (map (normalize cmp15) ts))) (Leaves ts).
+Proof. unfold not_preserved. intros H. apply sameset_b_false. apply negb_true_iff. exact H. Qed.
+
+(* pub use a; use a; *)
+Definition w_vis : list tree := [top [id1 97] None 1 None; top [id1 97] None 0 None].
+(* #[x] use a; use a; *)
+Definition w_attrs : list tree := [top [id1 97] None 0 (Some 7%N); top [id1 97] None 0 None].
+(* use a::{b::{}, c}; *)
+Definition w_empty : list tree :=
+  [top [id1 97] (Some [kid [id1 98] (Some []); kid [id1 99] None]) 0 None].
+(* use a as _; use a; *)
+Definition w_root : list tree := [top [Ident [97%N] (Some [95%N])] None 0 None; top [id1 97] None 0 None].
+(* use a::BAR; use a as q; *)
+Definition w_prefix : list tree :=
+  [top [id1 97; Ident [66; 65; 82]%N None] None 0 None; top [Ident [97%N] (Some [113%N])] None 0 None].
+(* use a::{c, x}; use a::c as z; *)
+Definition w_nested : list tree :=
+  [top [id1 97] (Some [kid [id1 99] None; kid [id1 120] None]) 0 None;
+   top [id1 97; Ident [99%N] (Some [122%N])] None 0 None].
+
+Lemma DupAcrossVisibility_witness :
+  exists ts, forallb ast_shape ts = true /\ DupAcrossVisibility (map (normalize cmp15) ts) = true /\
+    ~ SameSet (Leaves (with_granularity cmp15 Item (map (normalize cmp15) ts))) (Leaves ts).
+Proof.
+  exists w_vis. split; [vm_compute; reflexivity|]. split; [vm_compute; reflexivity|].
+  apply not_preserved_sound. vm_compute. reflexivity.
+Qed.
+Lemma DupAcrossAttrs_witness :
+  exists ts, forallb ast_shape ts = true /\ DupAcrossAttrs (map (normalize cmp15) ts) = true /\
+    ~ SameSet (Leaves (with_granularity cmp15 Item (map (normalize cmp15) ts))) (Leaves ts).
+Proof.
+  exists w_attrs. split; [vm_compute; reflexivity|]. split; [vm_compute; reflexivity|].
+  apply not_preserved_sound. vm_compute. reflexivity.
+Qed.
+Lemma NestedEmptyList_witness :
+  exists ts, forallb ast_shape ts = true /\ NestedEmptyList (map (normalize cmp15) ts) = true /\
+    forall g, g <> Preserve ->
+    ~ SameSet (Leaves (with_granularity cmp15 g (map (normalize cmp15) ts))) (Leaves ts).
+Proof.
+  exists w_empty. split; [vm_compute; reflexivity|]. split; [vm_compute; reflexivity|].
+  intros g Hg. apply not_preserved_sound. destruct g; try congruence; vm_compute; reflexivity.
+Qed.
+Lemma DupModuloRootAlias_witness :
+  exists ts, forallb ast_shape ts = true /\ DupModuloRootAlias (map (normalize cmp15) ts) = true /\
+    ~ SameSet (Leaves (with_granularity cmp15 Module (map (normalize cmp15) ts))) (Leaves ts) /\
+    ~ SameSet (Leaves (with_granularity cmp15 One (map (normalize cmp15) ts))) (Leaves ts).
+Proof.
+  exists w_root. split; [vm_compute; reflexivity|]. split; [vm_compute; reflexivity|].
+  split; apply not_preserved_sound; vm_compute; reflexivity.
+Qed.
+Lemma AliasedPrefixOne_witness :
+  exists ts, forallb ast_shape ts = true /\ AliasedPrefixOne (map (normalize cmp15) ts) = true /\
+    ~ SameSet (Leaves (with_granularity cmp15 One (map (normalize cmp15) ts))) (Leaves ts).
+Proof.
+  exists w_prefix. split; [vm_compute; reflexivity|]. split; [vm_compute; reflexivity|].
+  apply not_preserved_sound. vm_compute. reflexivity.
+Qed.
+Lemma DupModuloAliasNested_witness :
+  exists ts, forallb ast_shape ts = true /\ DupModuloAliasNested (map (normalize cmp15) ts) = true /\
+    ~ SameSet (Leaves (with_granularity cmp15 One (map (normalize cmp15) ts))) (Leaves ts).
+Proof.
+  exists w_nested. split; [vm_compute; reflexivity|]. split; [vm_compute; reflexivity|].
+  apply not_preserved_sound. vm_compute. reflexivity.
+Qed.
+(* every alias witness is in BadClass (AliasClash), so the theorem does not cover it *)
+Lemma alias_witnesses_in_BadClass :
+  BadClass cmp15 Module w_root = true /\ BadClass cmp15 One w_root = true /\
+  BadClass cmp15 One w_prefix = true /\ BadClass cmp15 One w_nested = true /\
+  BadClass cmp15 GCrate w_root = false.
+Proof. vm_compute. repeat split. Qed.
+
+(* ------------------------------------------------------------------ *)
+(* runs: no import moves across a non-import item *)
+Lemma seg_cover ig items : forall cur,
+  unseg (seg ig cur items) =
+  (match cur with Some r => map inl r | None => [] end) ++ map strip items.
+Proof.
+  induction items as [|[brk t|id] r IH]; intros cur; cbn [seg map strip].
+  - destruct cur; cbn [flush unseg flat_map]; rewrite ?app_nil_r; reflexivity.
+  - destruct cur as [run|].
+    + destruct (ig && brk).
+      * unfold unseg. cbn [flat_map]. fold (unseg (seg ig (Some [t]) r)). rewrite IH. reflexivity.
+      * rewrite IH, map_app, <- app_assoc. reflexivity.
+    + rewrite IH. reflexivity.
+  - unfold unseg. rewrite flat_map_app. cbn [flat_map]. fold (unseg (seg ig None r)).
+    rewrite IH. cbn [app]. destruct cur; cbn [flush flat_map]; rewrite ?app_nil_r; reflexivity.
+Qed.
+
+Definition run_rel (cmp : tree -> tree -> comparison) (g : granularity)
+           (s : list tree + N) (o : list (list tree) + N) : Prop :=
+  match s, o with
+  | inl run, inl groups =>
+      forallb ast_shape run = true -> BadClass cmp g run = false ->
+      SameSet (Leaves (concat groups)) (Leaves run)
+  | inr a, inr b => a = b
+  | _, _ => False
+  end.
+
+Theorem runs_no_crossing cmp g grp reorder ig items :
+  unseg (seg ig None items) = map strip items /\
+  Forall2 (run_rel cmp g) (seg ig None items) (visit_items cmp g grp reorder ig items).
+Proof.
+  split; [apply (seg_cover ig items None)|].
+  unfold visit_items. induction (seg ig None items) as [|s l IH]; cbn [map]; constructor; auto.
+  destruct s as [run|id]; cbn [run_rel]; auto.
+  intros H1 H2. apply pipeline_leaves; assumption.
+Qed.
